@@ -169,7 +169,7 @@ class Analyzer:
                 state.loc[loc] = MOD
             on_raise(exc, "exception@" + text)
             return state
-        m = self._match(sp.snapshot_calls, text)
+        m = self._match(sp.snapshot_calls, text) or self._match(sp.snapshot_calls, _src(call))
         if m:
             on_raise(state.copy(), "exception@" + text)
             if assign_target is not None and state.loc[m[1]] == ORIG:
@@ -261,7 +261,8 @@ class Analyzer:
                 elif isinstance(t, ast.Name):
                     if snap_loc is not None:
                         state.env[t.id] = snap_loc
-                    elif not (tname and tname in state.env and value is not None and isinstance(value, ast.Call) and self._match(sp.snapshot_calls, self._callee_text(value))):
+                    elif not (tname and tname in state.env and value is not None and isinstance(value, ast.Call)
+                              and (self._match(sp.snapshot_calls, self._callee_text(value)) or self._match(sp.snapshot_calls, _src(value)))):
                         state.env.pop(t.id, None)
                 elif isinstance(t, (ast.Tuple, ast.List)):
                     for e in t.elts:
